@@ -1,7 +1,7 @@
 (* PV.C18.Properties — the property theorems of C18 and nothing else.
    Part 1: the enumerators (partitions / subsets / all_combinations / exhaustive). *)
 From Coq Require Import List Bool Arith ZArith Permutation Sorted.
-From PV Require Import C18.Model C18.Spec C18.Proofs C18.ProofsStep C18.MflModel C18.MflSpec C18.MflProofs C18.MflParser C18.MflParserProofs C18.ProofsIiv.
+From PV Require Import C18.Model C18.Spec C18.Proofs C18.ProofsStep C18.MflModel C18.MflSpec C18.MflProofs C18.MflParser C18.MflParserProofs C18.ProofsIiv C18.ProofsCov.
 Import ListNotations.
 
 (* ---------------------------------------------------------------- partitions.py *)
@@ -353,11 +353,25 @@ Theorem mfl_parse_print :
   forall ss : list MflParser.stmt, canonical ss = true -> parse_ref (stringify ss) = Some ss.
 Proof. exact mfl_parse_print_lemma. Qed.
 
-(* ... hence the elaborated reading (arity, allowed names, default attributes as MFLInterpreter fills them) of the
-   printed text is the elaboration of the statements themselves *)
+(* ... hence the reading of the printed text by the reference for lark + MFLInterpreter (parse_mfl: case-insensitive
+   keywords, upper-cased values, arity, allowed names per feature, default attributes, LET, COVARIATE?, ALLOMETRY with
+   its decimal reference) is the elaboration of the statements themselves *)
 Theorem mfl_parse_print_elaborated :
-  forall ss : list MflParser.stmt, canonical ss = true -> parse_mfl (stringify ss) = elaborate_all ss.
+  forall ss : list MflParser.stmt, canonical ss = true ->
+    parse_mfl (stringify ss) =
+    if allometry_bracketed false (stmts_tokens ss) then Rejected else
+    match elaborate_all ss with
+    | Some ss' => if existsb allometry_missing_ref ss then InternalError else Accepted ss'
+    | None => Rejected
+    end.
 Proof. exact parse_mfl_print_lemma. Qed.
+
+(* a grammatical text is only ever answered with an internal error when it holds an ALLOMETRY statement without its
+   (grammatically optional) reference value -- guard conjunct of finding C18-ALLOMETRY-DEFAULT-REF *)
+Theorem mfl_internal_error_only_allometry :
+  forall text : list N, parse_mfl text = InternalError ->
+    exists ss, parse_ref text = Some ss /\ existsb allometry_missing_ref ss = true.
+Proof. exact parse_mfl_internal_error. Qed.
 
 (* ---------------------------------------------------------------- iivsearch / iovsearch brute-force candidates *)
 (* td_exhaustive_block_structure: the candidates are numbered from 1+offset and are exactly the partitions of the eta
@@ -430,3 +444,57 @@ Theorem lnt_is_smallest :
       (forall i, In i items -> In (item_cat i) (needed_categories a b)) /\
       (forall ks : list key, covers ks (needed_categories a b) -> length items <= length ks).
 Proof. exact lnt_smallest_lemma. Qed.
+
+(* ---------------------------------------------------------------- wildcards: the exact domain of the open finding *)
+(* C18-MFL-WILDCARD, characterised: in the raw-compared categories (ABSORPTION, ELIMINATION, LAGTIME, METABOLITE) `-`
+   and `==` ALWAYS raise when both sides are present and one is `*` -- every category descriptor, every mode list *)
+Theorem mfl_wildcard_sub_eq_raise :
+  forall (c : catdesc) (a b : modes),
+    cd_eq c = EqRaw -> cd_wild c <> [] ->
+    modes_ok (cd_wild c) (Some a) = true -> modes_ok (cd_wild c) (Some b) = true ->
+    a = MWild \/ b = MWild ->
+    opt_sub c (Some a) (Some b) = TypeError /\ opt_eq c (Some a) (Some b) = TypeError.
+Proof. exact opt_sub_raw_wildcard_raises. Qed.
+
+(* ... and a PERIPHERALS statement with a `*` mode makes _extract_peripherals (hence +, -, contain_subset, the
+   transformation distance) raise, whatever precedes or follows it *)
+Theorem mfl_wildcard_peripherals_raise :
+  forall (pre : list pstmt) (p : pstmt) (post : list pstmt) (met drug : list N),
+    forallb periph_plain pre = true -> p_keys p = MWild ->
+    extract_peripherals (pre ++ p :: post) met drug = TypeError.
+Proof. exact extract_peripherals_wildcard_raises. Qed.
+
+(* whereas in the eval-compared categories (DIRECTEFFECT, EFFECTCOMP) `-` is the set difference WITH wildcards on
+   either side (guard pd_diff_ok only) *)
+Theorem mfl_sub_pd_with_wildcards :
+  forall (c : catdesc) (lhs rhs : option modes),
+    cd_eq c = EqEval -> cd_sub c = SubNone -> cd_wild c <> [] ->
+    modes_ok (cd_wild c) lhs = true -> modes_ok (cd_wild c) rhs = true ->
+    pd_diff_ok (cd_wild c) lhs rhs = true ->
+    exists r, opt_sub c lhs rhs = Ok r /\ r <> Some MNone /\
+      forall x, In x (E_modes (cd_wild c) r) <-> In x (diffN (E_modes (cd_wild c) lhs) (E_modes (cd_wild c) rhs)).
+Proof. exact opt_sub_eval_wildcards. Qed.
+
+(* ---------------------------------------------------------------- covsearch: the greedy step procedure *)
+(* For every effect list, every oracle for the fits (which candidate wins each step), every number of earlier
+   candidates: each step offers exactly the original effects minus those that share parameter AND covariate with an
+   effect chosen so far, in the original order ... *)
+Theorem covsearch_steps_offer_remaining :
+  forall (fuel : nat) (effects : list ceff) (Q : ceff -> bool) (winners : list (option nat)) (n : nat),
+    Forall (fun r => exists chosen : list ceff,
+              fst r = filter (fun x => Q x && negb (existsb (fun e => same_pc e x) chosen)) effects)
+           (covsearch_steps fuel (filter Q effects) winners n).
+Proof. exact covsearch_steps_remaining. Qed.
+
+(* ... each (parameter, covariate, effect, operation) at most once per step ... *)
+Theorem covsearch_steps_once :
+  forall (fuel : nat) (cands : list ceff) (winners : list (option nat)) (n : nat),
+    NoDup cands -> Forall (fun r => NoDup (fst r)) (covsearch_steps fuel cands winners n).
+Proof. exact covsearch_steps_nodup. Qed.
+
+(* ... and the unbounded loop (`max_steps = -1`: itertools.count) ends: beyond |effects| + 1 passes nothing changes *)
+Theorem covsearch_unbounded_terminates :
+  forall (k : nat) (cands : list ceff) (winners : list (option nat)) (n f1 f2 : nat),
+    length cands <= k -> k < f1 -> k < f2 ->
+    covsearch_steps f1 cands winners n = covsearch_steps f2 cands winners n.
+Proof. exact covsearch_steps_fuel. Qed.
